@@ -155,13 +155,13 @@ var allScanInvariants = []string{"WellFormedInput", "NeverPanic", "C01_Census", 
 
 // Behaviour is one complete behaviour exported by TLC (ScanMC!ExportRec).
 type Behaviour struct {
-	G      model.Graph      `json:"g"`
-	R      []model.Root     `json:"r"`
-	Style  string           `json:"style"`
-	Ord    cases.Order      `json:"ord"`
-	N      map[string]int64 `json:"n"`
-	Refs   int64            `json:"refs"`
-	W      map[string]struct {
+	G     model.Graph      `json:"g"`
+	R     []model.Root     `json:"r"`
+	Style string           `json:"style"`
+	Ord   cases.Order      `json:"ord"`
+	N     map[string]int64 `json:"n"`
+	Refs  int64            `json:"refs"`
+	W     map[string]struct {
 		Oid  model.Oid       `json:"oid"`
 		Desc [][]interface{} `json:"desc"`
 	} `json:"w"`
